@@ -294,5 +294,63 @@ class Sequences(Part):
         return res
 
 
+class SeveralOnOneLine(Part):
+    name = "same_form_several_times_on_one_line"
+    desc = "two and three instances of one form on one line (';'-joined, JSON-style): every position holds a pseudonym, output independent of the secrets"
+
+    def __init__(self, tier, seed):
+        self.tier, self.seed = tier, seed
+
+    def groups(self):
+        from props import c09
+
+        return c09.DoubleMatch(self.tier, self.seed).groups()
+
+    def cases(self):
+        return [{"group": list(k)} for k in sorted(self.groups())]
+
+    def run(self, case):
+        res = Res()
+        forms = self.groups()[tuple(case["group"])]
+        pools = [secdom.pools(c, self.seed)[0] for c in ("text", "hex", "type7")] + [secdom.pools("text", self.seed)[1]]
+        la, lb, sigs, reps = [], [], [], []
+        for f in forms:
+            for (a1, b1), (a2, b2) in itertools.product(pools[:3], pools[1:]):
+                if a1 == a2:
+                    continue
+                for kind in ("semi", "json", "three"):
+                    def build(x, y, z):
+                        p = [secdom.fill(f["template"], [v]) for v in (x, y, z)]
+                        if kind == "semi":
+                            return p[0] + " ; " + p[1]
+                        if kind == "json":
+                            return '{"a": "' + p[0] + '", "b": "' + p[1] + '"}'
+                        return p[0] + " ; " + p[1] + " ; " + p[2]
+                    A, B = build(a1, a2, a1), build(b1, b2, b1)
+                    if "only" in case and case["only"] != A:
+                        continue
+                    la.append(A)
+                    lb.append(B)
+                    sigs.append(("%s|several|%s|ctx=0.0.0" % (f["id"], kind), False))
+                    reps.append({"group": case["group"], "only": A})
+        ga, _ = secdom.run_lines_isolated(la, "saltForTest")
+        gb, _ = secdom.run_lines_isolated(lb, "saltForTest")
+        for A, B, oa, ob, (stem, _d), rc in zip(la, lb, ga, gb, sigs, reps):
+            res.evals += 1
+            res.nt(A)
+            if isinstance(oa, tuple) or isinstance(ob, tuple):
+                if isinstance(oa, tuple) != isinstance(ob, tuple):
+                    res.violation("exception-depends-on-secret|" + stem, "%r -> %r ; %r -> %r" % (A, oa, B, ob), rc)
+                continue
+            res.out(oa == ob)
+            if oa != ob:
+                res.violation("output-depends-on-secret|" + stem, "input A %r -> %r ; input B %r -> %r" % (A, oa, B, ob), rc)
+            elif oa == A:
+                res.violation("secret-survives|" + stem, "input %r unchanged" % A, rc)
+        if "only" not in case:
+            res.samples.append({"group": case["group"], "forms": [f["id"] for f in forms], "lines": len(la)})
+        return res
+
+
 def parts(tier, seed):
-    return [Forms(tier, seed), Standalone(tier, seed), Sequences(tier, seed)]
+    return [Forms(tier, seed), Standalone(tier, seed), Sequences(tier, seed), SeveralOnOneLine(tier, seed)]
